@@ -105,12 +105,17 @@ stored in the returned `mapStream` and called by `mapStream.Close`; `context` / 
 packages. Then the context the dispatcher passes to the source's `Next`, the workers pass to `f` and all
 their selects wait on is done only when the caller's context is, when `Close` was called, or when the
 errgroup recorded a failure — never by the passage of time. -/
+def ctxPlainOf (assigns : List (String × String)) (shadows : List String) (cancelUses imports : List (String × String)) :
+    Bool :=
+  assigns == [("ctx, cancel", "context.WithCancel(ctx)"), ("eg, ctx", "errgroup.WithContext(ctx)")]
+  && shadows == []
+  && cancelUses == [("MapStream", "cancel: cancel"), ("mapStream.Close", "s.cancel()")]
+  && imports.contains ("", "context")
+  && imports.contains ("", "golang.org/x/sync/errgroup")
+
+/-- `ctxPlainOf` of the source as it is now -/
 def ctxPlain : Bool :=
-  ParSync.msCtxAssigns == [("ctx, cancel", "context.WithCancel(ctx)"), ("eg, ctx", "errgroup.WithContext(ctx)")]
-  && ParSync.msCtxShadows == []
-  && ParSync.msCancelUses == [("MapStream", "cancel: cancel"), ("mapStream.Close", "s.cancel()")]
-  && ParSync.parImports.contains ("", "context")
-  && ParSync.parImports.contains ("", "golang.org/x/sync/errgroup")
+  ctxPlainOf ParSync.msCtxAssigns ParSync.msCtxShadows ParSync.msCancelUses ParSync.parImports
 
 /-- `parallel.MapStream`, `mapStream.Next`, `mapStream.Close` as they are in the source now. -/
 def code : Code where
@@ -653,20 +658,26 @@ the receiver resolved to the struct field, `it` = the `*mapIterator`). The dispa
 lock / cond operation and no access to `inFlight` besides that `NewCond`; no other function of the package
 mentions `.inFlight` / `.cond`; `sync` is the standard package. (`bufferSize` / the two guards are the
 facts `miFull`, `miNextSignalCond`.) -/
-def sectionsAtomic : Bool :=
-  match ParSync.miDispSync, ParSync.miNextSync, ParSync.miCondInit with
+def sectionsAtomicOf (disp next condInit fields rest : List (String × String)) (touchers : List String)
+    (imports : List (String × String)) : Bool :=
+  match disp, next, condInit with
   | [("for", ""), ("Lock", l1), ("for", _), ("Wait", c1), ("}", _), ("inc", x1), ("Unlock", u1), ("}", _)],
     [("for", ""), ("if", _), ("Lock", l2), ("dec", x2), ("if", _), ("Signal", c2), ("}", _), ("Unlock", u2),
      ("}", _), ("}", _)],
     [(c0, l0)] =>
       l1 == u1 && l2 == u2 && l1 == l2 && c1 == c2 && c0 == c1 && l0 == l1 && x1 == x2
-      && ParSync.miFields.lookup l1 == some "sync.Mutex"
-      && ParSync.miFields.lookup c1 == some "*sync.Cond"
-      && ParSync.miFields.lookup x1 == some "int"
-      && ParSync.miRestSync == [("NewCond", c0 ++ " = sync.NewCond(&" ++ l0 ++ ")")]
-      && ParSync.miTouchers == ["MapIterator", "mapIterator.Next"]
-      && ParSync.parImports.contains ("", "sync")
+      && fields.lookup l1 == some "sync.Mutex"
+      && fields.lookup c1 == some "*sync.Cond"
+      && fields.lookup x1 == some "int"
+      && rest == [("NewCond", c0 ++ " = sync.NewCond(&" ++ l0 ++ ")")]
+      && touchers == ["MapIterator", "mapIterator.Next"]
+      && imports.contains ("", "sync")
   | _, _, _ => false
+
+/-- `sectionsAtomicOf` of the source as it is now -/
+def sectionsAtomic : Bool :=
+  sectionsAtomicOf ParSync.miDispSync ParSync.miNextSync ParSync.miCondInit ParSync.miFields ParSync.miRestSync
+    ParSync.miTouchers ParSync.parImports
 
 def code : Code where
   clampLow := Par.miClampLow
